@@ -61,3 +61,29 @@ Lemma w_mul_guard : range_unsafe (fv_min (FVar 1) w_mul_store) (fv_max (FVar 1) 
   | Some c' => var_min (fget (fst c') 0) = VlI 5 /\ var_max (fget (fst c') 0) = VlI 20
   | None => False end.
 Proof. vm_compute. repeat split. Qed.
+
+(* the fold used for the forward bounds (and for the candidate quotients): over finite float values it returns an element of
+   the list that is below (above) every element -- so the bound handed to s.try_set_min (try_set_max) is the least (greatest)
+   of the four corner products as computed in f64, whatever their order *)
+Lemma fold_min_f : forall l a, fin a -> Forall fin l ->
+  exists m, val_fold_min (VlF a) (map VlF l) = VlF m /\ fin m /\ In m (a :: l) /\ R_ m <= R_ a /\ Forall (fun x => R_ m <= R_ x) l.
+Proof. unfold val_fold_min. induction l as [|x l IH]; intros a Fa Fl.
+  - exists a. simpl. repeat split; auto. lra.
+  - inversion Fl as [|x' l' Fx Fl']; subst. cbn [map fold_left]. unfold val_lt at 2. cbn [as_f].
+    destruct (flt x a) eqn:E.
+    + apply (flt_fin _ _ Fx Fa) in E. destruct (IH x Fx Fl') as (m & Hm & Fm & Im & Lm & Am).
+      exists m. repeat split; auto. { destruct Im as [->|Im]; [right; left; reflexivity | right; right; exact Im]. } lra.
+    + apply (flt_fin_f _ _ Fx Fa) in E. destruct (IH a Fa Fl') as (m & Hm & Fm & Im & Lm & Am).
+      exists m. repeat split; auto. { destruct Im as [->|Im]; [left; reflexivity | right; right; exact Im]. }
+      constructor; auto. lra. Qed.
+Lemma fold_max_f : forall l a, fin a -> Forall fin l ->
+  exists m, val_fold_max (VlF a) (map VlF l) = VlF m /\ fin m /\ In m (a :: l) /\ R_ a <= R_ m /\ Forall (fun x => R_ x <= R_ m) l.
+Proof. unfold val_fold_max. induction l as [|x l IH]; intros a Fa Fl.
+  - exists a. simpl. repeat split; auto. lra.
+  - inversion Fl as [|x' l' Fx Fl']; subst. cbn [map fold_left]. unfold val_gt at 2. unfold val_lt. cbn [as_f].
+    destruct (flt a x) eqn:E.
+    + apply (flt_fin _ _ Fa Fx) in E. destruct (IH x Fx Fl') as (m & Hm & Fm & Im & Lm & Am).
+      exists m. repeat split; auto. { destruct Im as [->|Im]; [right; left; reflexivity | right; right; exact Im]. } lra.
+    + apply (flt_fin_f _ _ Fa Fx) in E. destruct (IH a Fa Fl') as (m & Hm & Fm & Im & Lm & Am).
+      exists m. repeat split; auto. { destruct Im as [->|Im]; [left; reflexivity | right; right; exact Im]. }
+      constructor; auto. lra. Qed.
